@@ -111,6 +111,7 @@ impl ClientPlan {
                 dead_point: 1,
                 abort_extras: 0,
                 status_currency: None,
+                pace_ms: 0,
             },
             init: ConfigureOutcome::plain(),
             ops,
